@@ -27,6 +27,10 @@ func genC16(t *rapid.T) Case {
 		}
 	}
 	c.Sched = drawSched(t, n)
+	if rapid.IntRange(0, 7).Draw(t, "gcFamily") == 6 {
+		gcInsideCompaction(t, &c)
+		return c
+	}
 	if rapid.IntRange(0, 3).Draw(t, "cancelFamily") == 0 {
 		// family: transactions over three names, half of them deletions, no logs and no
 		// per-transaction unique ref - so that compactions whose result is EMPTY, stacks that
